@@ -464,3 +464,58 @@ def wiring_rule(ctx, rep, prop):
                 rep.check(rule, f"{fn_key(b)}/{strip_crate(callee(t))}", False, where=where(b, bb),
                           what=f"{fn_key(b)}: arguments crossed in the call of {strip_crate(callee(t))}: " + "; ".join(f"`{a}` is passed for parameter `{p_}`" for i, a, p_ in sw))
     rep.check(rule, "call-sites-examined", n > 0, where="", what=f"{n} call sites into the property's modules examined for crossed arguments", nontrivial=False)
+
+
+def reachable_with_value(body, is_var, value, ty_hint=None):
+    """blocks reachable from the entry when every comparison `v OP const` / `const OP v` whose non-constant operand
+    satisfies is_var(expr) is decided for v = value (other branches stay open); used to evaluate a guard for sample
+    values instead of matching its spelling (`p > 100` vs `p >= 101`)."""
+    import pathsens
+
+    def forced(b, bb):
+        t = b.term(bb)
+        if t["k"] != "switch" or t["discr_ty"] != "bool":
+            return None
+        e = flow.expr_of(b, t["discr"], bb)
+        neg = False
+        while e[0] == "un" and e[1] == "Not":
+            neg = not neg
+            e = e[2]
+        if e[0] == "call" and re.search(r"ops::Range(Inclusive)?::<Idx>::contains$|RangeInclusive<.*>::contains$|Range<.*>::contains$", e[1]) and len(e[2]) == 2 and is_var(e[2][1]):
+            r = e[2][0]
+            lo = hi = None
+            incl = "Inclusive" in e[1]
+            if r[0] == "promoted" and isinstance(r[2], tuple) and r[2][0] == "adt" and "Range" in r[2][1] and len(r[2][3]) == 2 \
+                    and all(x[0] == "const" and isinstance(x[1], int) for x in r[2][3]):
+                lo, hi = r[2][3][0][1], r[2][3][1][1]
+            elif r[0] == "agg" and len(r[2]) == 2 and all(x[0] == "const" and isinstance(x[1], int) for x in r[2]):
+                lo, hi = r[2][0][1], r[2][1][1]
+                incl = incl or "Inclusive" in repr(r[1])
+            elif r[0] == "call" and r[1].endswith("RangeInclusive::<Idx>::new") and all(x[0] == "const" and isinstance(x[1], int) for x in r[2]):
+                lo, hi = r[2][0][1], r[2][1][1]
+                incl = True
+            if lo is None:
+                return None
+            v = (lo <= value <= hi) if incl else (lo <= value < hi)
+            if neg:
+                v = not v
+            zero = [x for vv, x in t["targets"] if vv == "0"]
+            return (t["otherwise"] if v else zero[0]) if zero else None
+        if e[0] != "bin" or e[1] not in ("Gt", "Ge", "Lt", "Le", "Eq", "Ne"):
+            return None
+        a, c = e[2], e[3]
+        op = e[1]
+        if a[0] == "const" and c[0] != "const":
+            a, c = c, a
+            op = {"Gt": "Lt", "Ge": "Le", "Lt": "Gt", "Le": "Ge", "Eq": "Eq", "Ne": "Ne"}[op]
+        if c[0] != "const" or not isinstance(c[1], int) or isinstance(c[1], bool) or not is_var(a):
+            return None
+        k = c[1]
+        v = {"Gt": value > k, "Ge": value >= k, "Lt": value < k, "Le": value <= k, "Eq": value == k, "Ne": value != k}[op]
+        if neg:
+            v = not v
+        zero = [x for vv, x in t["targets"] if vv == "0"]
+        if not zero:
+            return None
+        return t["otherwise"] if v else zero[0]
+    return pathsens.reachable_under(body, forced)
